@@ -286,7 +286,7 @@ def report(prop, spec, args, seed, results, extra, t0):
         if not r["error"] and r["completed_paths"] == 0 and not r["failures"] and not r.get("case_excluded"):
             faults.append("%s: vacuous harness (no path completes: contradictory requires?)" % r["harness"])
         for cname, ok in r["covers"].items():
-            if not ok and not r["failures"]:
+            if not ok and not r["failures"] and not r["error"]:
                 faults.append("%s: cover %s unreachable (vacuity guard)" % (r["harness"], cname))
         if not r["error"] and not r["obligations"] and not r.get("case_excluded"):
             faults.append("%s: zero obligations generated" % r["harness"])
@@ -346,6 +346,10 @@ def report(prop, spec, args, seed, results, extra, t0):
 
     with ThreadPoolExecutor(8) as tp:
         for v in tp.map(_replay, pending[:CAP]):
+            full, rp, confirmed, f = v
+            if "[TENTATIVE:" in (f.get("detail") or "") and not confirmed:
+                undecided.append("%s: CONTRACT-MISMATCH and the counterexample did not replay natively: %s" % (full, f["detail"][-300:]))
+                continue
             violations.append(v)
     for g in extra["ground"]:
         for o in g["obligations"]:
